@@ -127,9 +127,12 @@ type Update struct {
 }
 
 type Event struct {
-	Kind string // report
+	Kind string // report | assert
 	Args []Val
 	At   token.Pos
+	// assert: what the path knew about the asserted value when the assertion ran
+	NonNil bool
+	TypeIs string
 }
 
 // Fact: what a path assumes about a value.
@@ -238,7 +241,7 @@ func (s *State) clone() *State {
 		n.Updates = append(n.Updates, Update{cv(u.Base), u.T, u.F, cv(u.Val), u.Append, u.At})
 	}
 	for _, e := range s.Events {
-		ne := Event{Kind: e.Kind, At: e.At}
+		ne := Event{Kind: e.Kind, At: e.At, NonNil: e.NonNil, TypeIs: e.TypeIs}
 		for _, a := range e.Args {
 			ne.Args = append(ne.Args, cv(a))
 		}
@@ -279,6 +282,7 @@ type Lang struct {
 	Actions []*Action // index = production number (0 unused)
 	Problems []string
 	Inlined map[string]int // helper → number of call sites inlined into actions
+	ntNonEmpty map[string]map[string]bool // nonterminal → "T.F" → list certainly non-empty (set by TreePresence)
 }
 
 func (l *Lang) info() *types.Info { return l.Pkg.TypesInfo }
@@ -848,6 +852,16 @@ func (in *interp) eval(e ast.Expr, s *State) Val {
 		return in.field(base, typeName(info.Types[x.X].Type), x.Sel.Name, info.Types[e].Type)
 	case *ast.TypeAssertExpr:
 		v := in.eval(x.X, s)
+		if x.Type != nil {
+			ev := Event{Kind: "assert", Args: []Val{v, Opq{typeName(info.Types[x.Type].Type)}}, At: x.Pos()}
+			if isNil, known := s.KnownNil(v); known && !isNil {
+				ev.NonNil = true
+			}
+			if f := s.Facts[v.String()]; f != nil {
+				ev.TypeIs = f.Type
+			}
+			s.Events = append(s.Events, ev)
+		}
 		return v
 	case *ast.UnaryExpr:
 		if x.Op == token.AND {
